@@ -10,14 +10,14 @@ using namespace pbt;
 struct Fault { int fn = 0, k = 0, err = 0; };
 struct LifeCase {
   int nthreads = 1, flags = 0, skip_first = 0, attach_first = 0, nmsgs = 0, msg_pvt = 0, timer = 0, pipe_ev = 0, wait_early = 0,
-      shutdown_mode = 0, late_calls = 0, wait_mode = 1, destroy_in_pool_first = 0, slow_stop = 0, free_fd0 = 0, hooks_mode = 0;
+      shutdown_mode = 0, late_calls = 0, wait_mode = 1, destroy_in_pool_first = 0, slow_stop = 0, free_fd0 = 0, hooks_mode = 0, detach_thread = 0;
   Bytes plan;
   std::vector<Fault> faults;
   std::string ser() const {
     Writer w;
     w.i("nthreads", nthreads).i("flags", flags).i("skip_first", skip_first).i("attach_first", attach_first).i("nmsgs", nmsgs)
         .i("msg_pvt", msg_pvt).i("timer", timer).i("pipe_ev", pipe_ev).i("wait_early", wait_early).i("shutdown_mode", shutdown_mode)
-        .i("late_calls", late_calls).i("wait_mode", wait_mode).i("destroy_in_pool_first", destroy_in_pool_first).i("slow_stop", slow_stop).i("free_fd0", free_fd0).i("hooks_mode", hooks_mode);
+        .i("late_calls", late_calls).i("wait_mode", wait_mode).i("destroy_in_pool_first", destroy_in_pool_first).i("slow_stop", slow_stop).i("free_fd0", free_fd0).i("hooks_mode", hooks_mode).i("detach_thread", detach_thread);
     w.b("plan", plan);
     std::vector<long long> f;
     for (auto &x : faults) { f.push_back(x.fn); f.push_back(x.k); f.push_back(x.err); }
@@ -30,7 +30,7 @@ struct LifeCase {
     c.nthreads = (int)r.i("nthreads", 1); c.flags = (int)r.i("flags"); c.skip_first = (int)r.i("skip_first"); c.attach_first = (int)r.i("attach_first");
     c.nmsgs = (int)r.i("nmsgs"); c.msg_pvt = (int)r.i("msg_pvt"); c.timer = (int)r.i("timer"); c.pipe_ev = (int)r.i("pipe_ev");
     c.wait_early = (int)r.i("wait_early"); c.shutdown_mode = (int)r.i("shutdown_mode"); c.late_calls = (int)r.i("late_calls");
-    c.wait_mode = (int)r.i("wait_mode", 1); c.destroy_in_pool_first = (int)r.i("destroy_in_pool_first"); c.slow_stop = (int)r.i("slow_stop"); c.free_fd0 = (int)r.i("free_fd0"); c.hooks_mode = (int)r.i("hooks_mode");
+    c.wait_mode = (int)r.i("wait_mode", 1); c.destroy_in_pool_first = (int)r.i("destroy_in_pool_first"); c.slow_stop = (int)r.i("slow_stop"); c.free_fd0 = (int)r.i("free_fd0"); c.hooks_mode = (int)r.i("hooks_mode"); c.detach_thread = (int)r.i("detach_thread");
     c.plan = r.b("plan");
     auto f = r.iv("faults");
     for (size_t j = 0; j + 3 <= f.size(); j += 3) c.faults.push_back(Fault{(int)f[j], (int)f[j + 1], (int)f[j + 2]});
@@ -94,6 +94,7 @@ static Verdict evaluate(const LifeCase &c, const c11_out &o) {
   PBT_REQUIRE(all_eq(A_ATTACH_LATE, EBUSY), "tp_thread_attach_first after shutdown did not return EBUSY");
   PBT_REQUIRE(all_eq(A_WAIT_IN_POOL, EDEADLK), "tp_shutdown_wait from a pool thread did not return EDEADLK");
   PBT_REQUIRE(all_eq(A_DESTROY_IN_POOL, EDEADLK), "tp_destroy from a pool thread did not return EDEADLK");
+  PBT_REQUIRE(all_eq(A_DETACH_SELF, 0), "tp_thread_dettach() of a running worker on itself returned non-zero");
   PBT_REQUIRE(all_eq(A_WAIT_ATTACHED, 0), "tp_shutdown_wait called by the formerly attached thread after tp_thread_attach_first() had returned did not return 0 (it is no pool thread any more)");
   PBT_REQUIRE(!o.attached_still_pool_thread, "after tp_thread_attach_first() returned, the calling thread is still marked as a pool thread (tpt_get_current() != NULL): its own tp_shutdown_wait / tp_destroy would be refused with EDEADLK");
   PBT_REQUIRE(all_eq(A_SHUTDOWN_WAIT, 0), "tp_shutdown_wait from outside returned non-zero");
@@ -160,6 +161,7 @@ static Verdict evaluate(const LifeCase &c, const c11_out &o) {
   if (c.attach_first && c.skip_first) label("attach_first");
   if (c.attach_first && c.skip_first && c.wait_mode == 4) label("attached_thread_waits_itself");
   if (o.fd0_was_freed) label("pool_created_with_descriptor_0_free");
+  if (!rcs[A_DETACH_SELF].empty()) { label("worker_detached_itself"); nt = true; }
   for (int p : {10, 11, 12, 13, 14, 15, 16}) if (o.res.vp_hits[p]) label("vp" + std::to_string(p) + "_hit");
   if (nt) nontrivial_cur();
   return Verdict::pass();
@@ -171,7 +173,7 @@ static void to_scn(const LifeCase &c, c11_scn &s) {
   s.flags = (uint8_t)c.flags; s.skip_first = (uint8_t)c.skip_first; s.attach_first = (uint8_t)c.attach_first;
   s.nmsgs = (uint8_t)std::min(200, c.nmsgs); s.msg_pvt = (uint8_t)c.msg_pvt; s.timer = (uint8_t)c.timer; s.pipe_ev = (uint8_t)c.pipe_ev;
   s.wait_early = (uint8_t)c.wait_early; s.shutdown_mode = (uint8_t)c.shutdown_mode; s.late_calls = (uint8_t)c.late_calls;
-  s.wait_mode = (uint8_t)c.wait_mode; s.destroy_in_pool_first = (uint8_t)c.destroy_in_pool_first; s.slow_stop = (uint8_t)c.slow_stop; s.free_fd0 = (uint8_t)c.free_fd0; s.hooks_mode = (uint8_t)c.hooks_mode;
+  s.wait_mode = (uint8_t)c.wait_mode; s.destroy_in_pool_first = (uint8_t)c.destroy_in_pool_first; s.slow_stop = (uint8_t)c.slow_stop; s.free_fd0 = (uint8_t)c.free_fd0; s.hooks_mode = (uint8_t)c.hooks_mode; s.detach_thread = (uint8_t)c.detach_thread;
   s.plans.plan_len = (uint32_t)std::min<size_t>(c.plan.size(), TP_PLAN_MAX);
   memcpy(s.plans.plan, c.plan.data(), s.plans.plan_len);
   s.plans.nfaults = (uint32_t)std::min<size_t>(c.faults.size(), TP_FAULT_MAX);
@@ -210,6 +212,10 @@ static rc::Gen<LifeCase> genCase() {
     c.destroy_in_pool_first = *rc::gen::weightedElement<int>({{5, 0}, {1, 1}});
     if (c.attach_first && *range<int>(0, 2) == 0) c.wait_mode = 4;  // the attached thread waits by itself after it left the loop
     c.free_fd0 = *rc::gen::weightedElement<int>({{4, 0}, {1, 1}});
+    if (*range<int>(0, 4) == 0) {  // one created worker detaches itself; make it the one with the slow stop hook half of the time
+      int lo = c.skip_first ? 1 : 0;
+      if (lo <= c.nthreads - 1) { c.detach_thread = 1 + *range<int>(lo, c.nthreads - 1); if (*range<int>(0, 1)) c.slow_stop = c.detach_thread; }
+    }
     c.hooks_mode = *rc::gen::weightedElement<int>({{4, 0}, {1, 1}, {2, 2}, {1, 3}});  // which hooks the settings install    // descriptor 0 is free while the pool is created (closed stdin)
     c.plan = *bytes_upto(24);
     int nf = *rc::gen::weightedElement<int>({{5, 0}, {2, 1}, {1, 2}});
